@@ -244,7 +244,13 @@ def load_concrete(case, w):
         report(w, 'loading a document with status %r raised %s: %s' % (case['status'], type(e).__name__, str(e)[:200]),
                     {'case': case, 'where': 'load', 'problem': 'exception'})
         return None, None
-    errs = [e for e in conc.validate() if 'status-report' in str(e)]
+    # validate() costs 8-80 ms (it validates every component) and can only reject a status section whose
+    # weights are not floats: run it for the malformed kind and for a 1-in-40 sample of the others
+    errs = []
+    if case['kind'] == 'malformed' or not all(x is None or isinstance(x, float) for x in given_vector(case)) \
+            or w.evaluations % 40 == 0:
+        w.count('validate_called')
+        errs = [e for e in conc.validate() if 'status-report' in str(e)]
     if errs:
         w.count('rejected_by_validation')
         if case['kind'] != 'malformed':
